@@ -45,6 +45,9 @@ var recipes = []recipe{
 	{"upgrade-halt", func(r *hx.Rng, s uint64, o hx.Counter, a bool) []Case {
 		return runUpgrade(UpgradeParams{Seed: s, Instate: r.Chance(40), Skip: r.Chance(50)}, o)
 	}, 1},
+	{"ubi-proposal", func(r *hx.Rng, s uint64, o hx.Counter, a bool) []Case {
+		return runUbi(UbiParams{Seed: s, Period: pickU(r, 0, 1, 3600, 86400, 31556952), Amount: pickU(r, 1, 10, 1000000, 1<<62)}, o)
+	}, 1},
 	{"random", recipeRandom, 6},
 }
 
